@@ -736,14 +736,14 @@ func init() {
 		"strings.ToLower": func(fr *frame, args []value) value {
 			a, ok := args[0].(string)
 			if !ok {
-				fr.i.abort("unsupported", "strings.ToLower on symbolic input")
+				return fr.i.asciiCase(args[0], 'A', 'Z', 32, "strings.ToLower")
 			}
 			return strings.ToLower(a)
 		},
 		"strings.ToUpper": func(fr *frame, args []value) value {
 			a, ok := args[0].(string)
 			if !ok {
-				fr.i.abort("unsupported", "strings.ToUpper on symbolic input")
+				return fr.i.asciiCase(args[0], 'a', 'z', -32, "strings.ToUpper")
 			}
 			return strings.ToUpper(a)
 		},
@@ -961,4 +961,30 @@ func init() {
 		}
 		return u
 	}
+}
+
+// asciiCase maps the bytes of a symbolic string that lie in [lo,hi] by delta; exact for ASCII strings, so every
+// symbolic byte must be provably below 0x80 on this path (otherwise the path is not decided).
+func (i *interpreter) asciiCase(v value, lo, hi byte, delta int64, what string) value {
+	bs := strBytes(v)
+	out := make([]value, len(bs))
+	for k, b := range bs {
+		if c, ok := b.(uint8); ok {
+			if c >= 0x80 {
+				i.abort("unsupported", what+" on a non-ASCII string with symbolic bytes")
+			}
+			if c >= lo && c <= hi {
+				c = byte(int64(c) + delta)
+			}
+			out[k] = c
+			continue
+		}
+		e := exprOf(b)
+		if i.ctx.checkSat(mkGe(e, mkInt(big.NewInt(0x80)))) != resUnsat {
+			i.abort("unsupported", what+" on symbolic input that may be non-ASCII")
+		}
+		in := mkAnd(mkGe(e, mkInt(big.NewInt(int64(lo)))), mkLe(e, mkInt(big.NewInt(int64(hi)))))
+		out[k] = mkIntVal(types.Uint8, mkIte(in, mkAdd(e, mkInt(big.NewInt(delta))), e))
+	}
+	return mkStr(out)
 }
